@@ -131,6 +131,7 @@ class Ledger:
         self.canput = []          # (t, node_id, edge_id, answer, room_pred)
         self.asks = {}            # id(item) -> [(t, edge_id, answer, room)] : can_put questions asked on behalf of that item
         self.discard_asks = []    # (t, node_id, item, [asks of that item in this instant])
+        self.discard_rooms = []   # (t, node_id, item, [(edge_id, room)]): every out-edge's room when a FIRST_AVAILABLE node drops an item
         self.draws = collections.defaultdict(list)    # point name -> [(t, value)]
         self.occ_hist = collections.defaultdict(list)  # edge_id -> [(t, occupancy after event)]
         self.crash = None
@@ -212,6 +213,9 @@ class Ledger:
         if new != old + 1:
             self.V("C09", "discard-count-by-one", "%s changed its discard counter from %r to %r" % (node.id, old, new), node=type(node).__name__)
         self.discards.append((self.env.now, node.id, it))
+        if getattr(node, "out_edge_selection", None) == "FIRST_AVAILABLE":
+            self.discard_rooms.append((self.env.now, node.id, it, [(e.id, self.room(e)) for e in (node.out_edges or [])
+                                                                   if type(e).__name__ in ("Buffer", "Fleet")]))
         if it is not None:
             self.discard_asks.append((self.env.now, node.id, it, [a for a in self.asks.get((id(it), node.id), []) if abs(a[0] - self.env.now) < 1e-9]))
         if it is not None:
@@ -665,6 +669,11 @@ def explore(cfg, monitors, bound, prop, crash_is_violation=False, max_runs=20000
                 vs.append({"property": prop, "clause": "invalid-config-rejected", "kind": "factory",
                            "detail": "%s was simulated to t=%s without any error (%d item movements)" % (cfg.get("why"), cfg.get("until"), r.moved),
                            "facets": {"why": cfg.get("why")}, "t": None})
+            elif r.crash is not None and r.crash[0] == "livelock" and prop in cfg.get("expect_props", ["C20"]):
+                # the harness's own event budget ended the run: the model was accepted and simulated (into a zero-time loop), not rejected
+                vs.append({"property": prop, "clause": "invalid-config-rejected", "kind": "factory",
+                           "detail": "%s was accepted and simulated into a zero-time loop (%s)" % (cfg.get("why"), str(r.crash[1])[:120]),
+                           "facets": {"why": cfg.get("why"), "livelock": True}, "t": None})
             else:
                 out["counted_rejections"] = out.get("counted_rejections", 0) + 1
         elif r.crash is not None:
